@@ -387,6 +387,20 @@ def obligations_for(config):
     ob("H", "secp256k1_generator_h_internal", "the value generator H is on the curve and its x coordinate is SHA256(uncompressed G) (nothing-up-my-sleeve derivation)",
        on_curve(hx, hy) and hx == int.from_bytes(hashlib.sha256(gser).digest(), "big"), "x=%s" % hexs(hx), {"C08", "C09", "C10"})
 
+    # the static context's positional initialiser against the field order of the context struct
+    raw = c.raw("secp256k1_context_static_")
+    pi, pe = raw.find("@secp256k1_default_illegal_callback_fn"), raw.find("@secp256k1_default_error_callback_fn")
+    st = sxlib.program(config).structs
+    cs = st.get("secp256k1_context_struct") or st.get("struct secp256k1_context_struct") or {}
+    names = [x["name"] for x in cs.get("fields", [])]
+    if "illegal_callback" not in names or "error_callback" not in names:
+        raise AnalysisBroken("R-CONST: struct secp256k1_context_struct has no illegal_callback / error_callback fields any more")
+    ok_ctx = pi >= 0 and pe >= 0 and ((pi < pe) == (names.index("illegal_callback") < names.index("error_callback")))
+    ob("static-context:callbacks", "secp256k1_context_static_",
+       "the positional initialiser of secp256k1_context_static_ puts the default illegal-argument handler into illegal_callback and the default error handler into error_callback",
+       ok_ctx, "struct field order: %s; initialiser order: %s" % (", ".join(n for n in names if n.endswith("_callback")),
+                                                                 "illegal, error" if pi < pe else "error, illegal"), {"C20", "C07"})
+
     # window tables of ecmult
     w = _cint(c.macros.get("WINDOW_G", c.macros.get("ECMULT_WINDOW_SIZE", "0")), c.macros)
     for name, base_mult in (("secp256k1_pre_g", 1), ("secp256k1_pre_g_128", 2**128)):
